@@ -54,7 +54,7 @@ if [ "$MODE" = "--replay" ]; then
     [ -n "$RACEBIN" ] || { build "$S/h" "$S/bin/voresim.race" -race; RACEBIN="$S/bin/voresim.race"; }
     BIN="$RACEBIN"
   fi
-  GORACE="halt_on_error=1 history_size=5 exitcode=66" GOMAXPROCS=1 "$BIN" replay "${COMMON[@]}" -file "$FILE" -world "$S/worlds/replay"
+  GORACE="halt_on_error=1 history_size=5 exitcode=66" GOMAXPROCS=1 "$BIN" replay "${COMMON[@]}" -file "$FILE" -world "$S/worlds/0replay0"
   rc=$?
   case $rc in
     0)  echo "VIOLATION property=$ID replay=$FILE"; exit 1;;
